@@ -410,7 +410,7 @@ Section Outcome.
     { unfold final_code. destruct (existsb (fun j => is_qfail (q' j)) oidx).
       - split; [rewrite CF, CT; lia|]. rewrite Z.eqb_refl. apply orb_true_r.
       - rewrite (oexistsb_true (fun j => is_qexp (q' j)) i Hi) by (rewrite Hqi; reflexivity). split; [rewrite CE, CT; lia|]. rewrite Z.eqb_refl. reflexivity. }
-    cbn [hstep]. rewrite Hge. unfold expired. rewrite Hem, oseg_is_submit. cbn [oseg sm_seq with_store c_seg c_stat with_seg]. rewrite Hbi.
+    cbn [hstep]. unfold expire_one. rewrite Hge. unfold expired. rewrite Hem, oseg_is_submit. cbn [oseg sm_seq with_store c_seg c_stat with_seg]. rewrite Hbi.
     cbn [with_seg c_stat]. rewrite Hcell. fold cell'.
     set (c2 := with_stat (with_seg (with_store (h_corr s) (ddel (sq i) (c_store (h_corr s)))) (ddel (sq i) (c_seg (h_corr s))))
                          (dset (c_stat (h_corr s)) r cell')).
@@ -663,10 +663,10 @@ End Outcome.
 Theorem plain_outcome s r' mid e :
   (rs_cmd r' = SmppCommand_SUBMIT_SM_RESP \/ rs_cmd r' = SmppCommand_GENERIC_NACK) ->
   dget (rs_seq r') (c_store (h_corr s)) = Some e -> sm_cmd (e_msg e) = SmppCommand_SUBMIT_SM ->
-  dget (rs_seq r') (c_seg (h_corr s)) = None ->
+  dget (rs_seq r') (c_seg (h_corr s)) = None -> snd (sm_sar (e_msg e)) = 0 ->
   snd (handle_response s r' mid) = [HResp (rs_uid r') (sm_log (e_msg e)) (rs_cmd r') (rs_status r')].
 Proof.
-  intros Hcmd Hg Hm Hseg. destruct outcome_constants as (C4 & CR & CN & C0 & CS & CF & CE & CT & HmR & HmN & Hlk).
+  intros Hcmd Hg Hm Hseg Hplain. destruct outcome_constants as (C4 & CR & CN & C0 & CS & CF & CE & CT & HmR & HmN & Hlk).
   assert (get_pop (h_corr s) r' = (with_store (h_corr s) (ddel (rs_seq r') (c_store (h_corr s))), Some e)) as Hgp.
   { unfold get_pop. rewrite Hg. unfold is_submit. rewrite Hm, Z.eqb_refl. cbn [with_store c_seg]. rewrite Hseg. reflexivity. }
   assert (forall c, c_seg c = c_seg (h_corr s) -> get_segmented c (rs_seq r') false = (c, None, 0)) as Hgs.
@@ -674,10 +674,10 @@ Proof.
   unfold handle_response. destruct Hcmd as [E|E]; rewrite E.
   - rewrite CR, HmR. cbn [negb]. rewrite CN. change (2147483652 =? 2147483648) with false. cbv iota. rewrite Hlk, Hgp. cbv beta iota.
     rewrite Hm, C4. change (4 =? 4) with true. cbn [negb]. cbv iota. change ((2147483652 =? 2147483652) || (2147483652 =? 2147483648)) with true. cbn [andb].
-    destruct (mem (rs_status r') throttled_statuses); cbv beta iota zeta; cbn [h_corr]; rewrite (Hgs (with_store (h_corr s) (ddel (rs_seq r') (c_store (h_corr s)))) eq_refl); reflexivity.
+    destruct (mem (rs_status r') throttled_statuses); cbv beta iota zeta; cbn [h_corr]; rewrite (Hgs (with_store (h_corr s) (ddel (rs_seq r') (c_store (h_corr s)))) eq_refl); rewrite Hplain; reflexivity.
   - rewrite CN, HmN. cbn [negb]. change (2147483648 =? 2147483648) with true. cbv iota. rewrite Hgp. cbv beta iota.
     rewrite Hm, C4. change (4 =? 4) with true. rewrite CR. change ((2147483648 =? 2147483652) || (2147483648 =? 2147483648)) with true. cbn [andb].
-    destruct (mem (rs_status r') throttled_statuses); cbv beta iota zeta; cbn [h_corr]; rewrite (Hgs (with_store (h_corr s) (ddel (rs_seq r') (c_store (h_corr s)))) eq_refl); reflexivity.
+    destruct (mem (rs_status r') throttled_statuses); cbv beta iota zeta; cbn [h_corr]; rewrite (Hgs (with_store (h_corr s) (ddel (rs_seq r') (c_store (h_corr s)))) eq_refl); rewrite Hplain; reflexivity.
 Qed.
 
 Theorem plain_timeout s sq e :
@@ -685,5 +685,13 @@ Theorem plain_timeout s sq e :
   dget sq (c_seg (h_corr s)) = None ->
   snd (hstep s (HExpire sq)) = [HSendError (sm_log (e_msg e))].
 Proof.
-  intros Hg Hm Hsq Hseg. cbn [hstep]. rewrite Hg. unfold expired, is_submit. rewrite Hm, Z.eqb_refl, Hsq. cbn [with_store c_seg]. rewrite Hseg. reflexivity.
+  intros Hg Hm Hsq Hseg. cbn [hstep]. unfold expire_one. rewrite Hg. unfold expired, is_submit. rewrite Hm, Z.eqb_refl, Hsq. cbn [with_store c_seg]. rewrite Hseg. reflexivity.
+Qed.
+
+(* the handler with the in-call sweep is the plain handler when nothing times out during the call *)
+Theorem handle_response_x_nil s r' mid : handle_response_x [] s r' mid = handle_response s r' mid.
+Proof.
+  unfold handle_response_x, handle_response. cbn [expire_all fst snd app].
+  destruct (negb _); [reflexivity|]. destruct (if rs_cmd r' =? _ then _ else _) as [oc|]; [|reflexivity].
+  destruct (get_pop (h_corr s) r') as [c0 oe]. cbn [with_corr h_corr]. reflexivity.
 Qed.
